@@ -176,6 +176,57 @@ Example C10_array_with_example :
   = Val (RArr Z {| avals := [Some 5; None; Some 1; None; Some 3]; aoff := -2; acnt := 3 |}).
 Proof. split; vm_compute; reflexivity. Qed.
 
+(* Array.Where, for EVERY array satisfying the invariant and EVERY predicate - an arbitrary function from the item
+   (index, value) to true / false / error, so every list of predicate outcomes incl. a failure part-way: the outcome is
+   a value satisfying the invariant again (first and last cell are items, count = number of items - the trimming after
+   the filter is right), the empty set, or the predicate's ordinary error.  Never a panic, never a hang. *)
+From Arrai Require Import Proofs.SeqSafeArrWhereP.
+Theorem C10_array_where_never_panics :
+  forall (max_alloc : Z) (V : Type), 0 < max_alloc <= 281474976710656 ->
+  forall (a : arr V) (p : Z -> V -> option bool), inv_arr max_alloc V a ->
+    match arr_where max_alloc V a p with
+    | Val r => inv max_alloc V r
+    | ErrOrd => True
+    | Panic _ | Hang => False
+    end.
+Proof.
+  intros max_alloc V Hmax a p Ha. pose proof (arr_where_safe max_alloc V Hmax a p Ha) as H.
+  destruct (arr_where max_alloc V a p); exact H.
+Qed.
+Print Assumptions C10_array_where_never_panics.
+
+(* non-trivial instances: keeping only the middle item re-trims both ends; a predicate failing on the last item is an error *)
+Example C10_array_where_example :
+  arr_where 4294967296 Z {| avals := [Some 1; None; Some 3; Some 4]; aoff := 5; acnt := 3 |} (fun i _ => Some (i =? 7))
+  = Val (RArr Z {| avals := [Some 3]; aoff := 7; acnt := 1 |}) /\
+  arr_where 4294967296 Z {| avals := [Some 1; None; Some 3; Some 4]; aoff := 5; acnt := 3 |}
+            (fun i _ => if i =? 8 then None else Some false) = ErrOrd.
+Proof. split; vm_compute; reflexivity. Qed.
+
+(* asArray (what SetBuilder.Finish, hence =>, ++ and the set operators, end in) on EVERY non-empty list of item tuples,
+   superimposed or not: it returns; or it panics with makeslice, and then the index span max-min+1 is above the allocation
+   limit (dense storage, KF-C10-23); or it indexes an empty slice, and then the span is exactly 2^64 - the index range
+   crosses the int64 limit (KF-C10-33).  No other panic, no hang.  PARTIAL: that the returned array satisfies the
+   invariant is not proved here. *)
+From Arrai Require Import Proofs.SeqSafeAsArrayP.
+Theorem C10_as_array_panics_only_in_recorded_regions_partial :
+  forall (max_alloc : Z) (V : Type), 0 < max_alloc <= 281474976710656 ->
+  forall (values : list (Z * V)), values <> [] -> (forall t, In t values -> min_int <= fst t <= max_int) ->
+    match as_array max_alloc V values with
+    | Val _ => True
+    | Panic s => (s = SMakeslice /\ max_alloc < max_at values - min_at values + 1 < two64) \/
+                 (s = SIndex /\ max_at values - min_at values + 1 = two64)
+    | _ => False
+    end.
+Proof. intros max_alloc V Hmax values Hne Hr. exact (as_array_safe max_alloc V Hmax values Hne Hr). Qed.
+Print Assumptions C10_as_array_panics_only_in_recorded_regions_partial.
+
+(* instances: two items 3 apart give 4 cells; the two ends of the int64 range give the empty-slice panic of KF-C10-33 *)
+Example C10_as_array_example :
+  as_array 4294967296 Z [(5, 1); (2, 7)] = Val (RArr Z {| avals := [Some 7; None; None; Some 1]; aoff := 2; acnt := 2 |}) /\
+  as_array 4294967296 Z [(max_int, 1); (min_int, 2)] = Panic SIndex.
+Proof. split; vm_compute; reflexivity. Qed.
+
 (* the hypotheses are satisfiable by non-trivial values *)
 Example C10_inv_arr_example : inv_arr 4294967296 Z {| avals := [Some 1; None; None; Some 4]; aoff := -3; acnt := 2 |}.
 Proof. vm_compute. repeat split; congruence. Qed.
